@@ -290,17 +290,9 @@ def trade_formulas(ck, an, only=None):
     q, bid, ask, c = "quantity", "bid_price", "ask_price", "contract"
     acq = summ.get("acq_price")
     # side selection
-    st = [s for s in assigns_to_attr(fa, "acq_price")]
-    good = False
-    detail = "acq_price is not assigned"
-    for s in st:
-        if isinstance(s, ast.Assign) and isinstance(s.value, ast.IfExp):
-            try:
-                tab = sign_table_expr(fa.sym, s.value, q)
-                good = tab["pos"] == ask and tab["neg"] == bid
-                detail = f"buy -> {tab['pos']}, sell -> {tab['neg']}"
-            except AnalysisError as e:
-                detail = str(e)
+    tab = sign_table_slot(fa, q, "self.acq_price")
+    good = tab["pos"] == ask and tab["neg"] == bid
+    detail = f"buy -> {tab['pos']}, sell -> {tab['neg']}"
     ck.check(good, "SIGN", "S3.trade-side", subj, f.loc, "a buy executes at the ask, a sale at the bid", f"Trade execution side: {detail}", construct="self.acq_price = ...")
     if acq is None:
         return
@@ -348,114 +340,73 @@ def fees_formulas(ck, an):
 # valuation
 # ---------------------------------------------------------------------------
 
+PRICE_SPELLINGS = ("{book}.bid_price if {q} >= 0 else {book}.ask_price", "{book}.bid_price if {q} > 0 else {book}.ask_price", "{book}.liq_price({q})", "{book}.acq_price(-{q})")
+
+
 def valuation_formulas(ck, an, want: set):
+    """holdings_values evaluated (abstractly) under `quantity != 0 and kind == K` and under `quantity == 0`: the value
+    stored for the contract is compared, as a polynomial, with the formula of each kind."""
     fa = an.fa("Broker.holdings_values")
     subj = fa.f.short
-    loops = [n for n in walk_function(fa.f.node) if isinstance(n, ast.For) and "_holdings_quantity" in ast.unparse(n.iter)]
-    if not loops:
-        ck.fail("LIN", "S6.valuation-formulas", subj, fa.f.loc, "holdings_values does not iterate the positions", construct="missing:for contract, quantity in ...")
+    loops = [n for n in walk_function(fa.f.node) if isinstance(n, ast.For) and fa.sym.canon(n.iter) == "self._holdings_quantity.items()"]
+    if not loops or not (isinstance(loops[0].target, ast.Tuple) and len(loops[0].target.elts) == 2 and all(isinstance(e, ast.Name) for e in loops[0].target.elts)):
+        ck.fail("LIN", "S6.valuation-formulas", subj, fa.f.loc, "holdings_values does not iterate the (contract, quantity) items of the position ledger", construct="missing:for contract, quantity in self._holdings_quantity.items()")
         return
     loop = loops[0]
     cvar, qvar = [e.id for e in loop.target.elts]
-    vals = {}
+    kindp = fa.f.params[1]
+    Cn = loop_item(fa, loop, 0)
+    stores = [n for n in ast.walk(loop) if isinstance(n, ast.Assign) and len(n.targets) == 1 and isinstance(n.targets[0], ast.Subscript) and isinstance(n.targets[0].value, ast.Name)
+              and fa.sym.canon(n.targets[0].slice) == Cn.key()]
+    ck.check(len(stores) == 1 and not fa.syntactic_guards(stores[0]), "ARGFLOW", "S6.value-stored-per-contract", subj, fa.loc(loop), "every position's value is stored under its contract, unconditionally",
+             "the per-contract value is not stored unconditionally under the contract", construct="holdings_values[contract] = value")
+    if len(stores) != 1:
+        return
+    st0 = stores[0]
+    book = f"self.exchange[{cvar}]"
 
-    def on_stmt(s, fw):
-        if isinstance(s, (ast.Assign, ast.AugAssign)) and isinstance(s.targets[0] if isinstance(s, ast.Assign) else s.target, ast.Name):
-            pass
-        if isinstance(s, ast.Assign) and isinstance(s.targets[0], ast.Subscript) and not fw.st.conds == []:
-            pass
-    # evaluate per `kind` by reading the branch-end values of the local holding the value
-    branch_vals = {}
+    def stored_under(facts):
+        got = {}
 
-    def on_stmt2(s, fw):
-        # record the value variable at the end of each kind-branch: hook on the store of the per-contract value
-        pass
-    fw = Forward(an, fa).run()
-    # direct reading: walk the If chain on `kind`
-    for n in ast.walk(loop):
-        if isinstance(n, ast.If):
-            c = fa.sym.cmp(n.test)
-            if c[0] == "rel" and c[1] == "==" and "kind" in c[2]:
-                lit = "notional" if "'notional'" in c[2] else ("liquidation" if "'liquidation'" in c[2] else None)
-                if lit:
-                    sub = Forward(an, fa)
-                    sub.st.locals[cvar] = Poly.atom(cvar)
-                    sub.st.locals[qvar] = Poly.atom(qvar)
-                    # bind the liquidation price local(s) used in the branch to an opaque symbol
-                    names = {x.id for b in n.body for x in ast.walk(b) if isinstance(x, ast.Name) and isinstance(x.ctx, ast.Load)}
-                    for nm in names:
-                        if nm not in sub.st.locals and nm not in (cvar, qvar, "self", "np", "kind"):
-                            sub.st.locals[nm] = Poly.atom(nm)
-                    sub._block(n.body)
-                    tgt = None
-                    for b in n.body:
-                        if isinstance(b, (ast.Assign, ast.AugAssign)):
-                            t = b.targets[0] if isinstance(b, ast.Assign) else b.target
-                            if isinstance(t, ast.Name):
-                                tgt = t.id
-                    if tgt:
-                        branch_vals[lit] = (sub.st.locals.get(tgt), n)
-    price_names = [d.var for d in fa.rd.defs if d.kind == "assign" and isinstance(d.value, ast.IfExp) and "bid_price" in ast.unparse(d.value)]
-    pn = price_names[0] if price_names else "liq_price"
-    # which side of the book values the position: a long (quantity > 0; >= 0 is the same under the non-flat guard) is sold at the bid, a short bought back at the ask
-    side_defs = [d for d in fa.rd.defs if d.var == pn and d.kind == "assign"]
-    qsym = fa.sym.ev(ast.Name(id=qvar, ctx=ast.Load()), side_defs[0].node) if side_defs else None
-    ok_side, got_side = False, [ast.unparse(d.value) for d in side_defs]
-    if len(side_defs) == 1 and isinstance(side_defs[0].value, ast.IfExp) and qsym is not None:
-        ie = side_defs[0].value
-        c = fa.sym.cmp(ie.test)
-        b, o = fa.sym.canon(ie.body), fa.sym.canon(ie.orelse)
-        if c[0] == "rel" and c[1] in ("<", "<="):
-            book = f"self.exchange[{fa.sym.canon(ast.Name(id=cvar, ctx=ast.Load()), side_defs[0].node)}]"
-            if c[4] == -qsym:      # quantity > 0 / >= 0
-                ok_side = b == f"{book}.bid_price" and o == f"{book}.ask_price"
-            elif c[4] == qsym:     # quantity < 0 / <= 0
-                ok_side = b == f"{book}.ask_price" and o == f"{book}.bid_price"
-    ck.check(ok_side, "SIGN", "S6.valuation-side", subj, fa.loc(loop), "a long position is valued at the bid and a short one at the ask of its own contract's book (threshold exactly 0)",
-             f"the valuation price is {got_side}: not `bid if quantity >= 0 else ask` of the contract's own book", construct="liq_price = bid if quantity >= 0 else ask")
-    q, price = Poly.atom(qvar), Poly.atom(pn)
-    mult = Poly.atom(f"{cvar}.multiplier")
-    creq = Poly.atom(f"{cvar}.cash_requirement")
-    expect = {"notional": q * price * mult}
-    for kind, w in expect.items():
-        got, node = branch_vals.get(kind, (None, None))
-        ck.check(got is not None and got == w, "LIN", f"S6.value-{kind}", subj, fa.loc(node) if node is not None else fa.f.loc,
-                 f"{kind} value = position x liquidation price x multiplier", f"{kind} value = {got.key() if got is not None else 'not found'}, expected {w.key()}",
-                 construct=f"kind == '{kind}'")
-    got, node = branch_vals.get("liquidation", (None, None))
-    if got is None:
-        ck.fail("LIN", "S6.value-liquidation", subj, fa.f.loc, "no liquidation-kind valuation found", construct="kind == 'liquidation'")
-    else:
-        margin_atoms = [a for a in got.atoms() if "_holdings_margins" in a and f"[{cvar}]" in a]
-        w = creq * q * price * mult + (Poly.atom(margin_atoms[0]) if margin_atoms else Poly())
-        ck.check(bool(margin_atoms) and got == w, "LIN", "S6.value-liquidation", subj, fa.loc(node),
-                 "liquidation value = cash requirement x position x liquidation price x multiplier + posted margin",
-                 f"liquidation value = {got.key()}, expected {(creq * q * price * mult).key()} + posted margin of the contract", construct="kind == 'liquidation'")
-    # the formulas apply to non-flat positions only, flat ones are worth 0, and every contract's value is stored and returned
-    for kind, (got_, node_) in branch_vals.items():
-        if node_ is None:
-            continue
-        preds = fa.guard_predicates(node_.body[0])
-        ck.check(any(p[0] == "rel" and p[1] == "!=" and p[4] in (loop_item(fa, loop, 1), -loop_item(fa, loop, 1)) for p in preds), "GUARD", f"S6.value-{kind}-for-nonflat",
-                 subj, fa.loc(node_), f"the {kind} formula is applied to positions with quantity != 0", f"the {kind} formula is guarded by {[cmp_key(p) for p in preds]} (not by quantity != 0)", construct=f"kind == '{kind}' guard")
-    stores = [n for n in ast.walk(loop) if isinstance(n, ast.Assign) and isinstance(n.targets[0], ast.Subscript) and isinstance(n.value, ast.Name)]
-    ok_store = len(stores) == 1 and not fa.syntactic_guards(stores[0]) and ast.unparse(stores[0].targets[0].slice) == cvar
-    ck.check(ok_store, "ARGFLOW", "S6.value-stored-per-contract", subj, fa.loc(loop), "every position's value is stored under its contract, unconditionally", "the per-contract value is not stored unconditionally under the contract",
-             construct="holdings_values[contract] = value")
-    if ok_store:
-        st0 = stores[0]
-        defs = fa.rd.reaching(st0.value.id, fa.node_of(st0).id)
-        zero = [d for d in defs if d.kind == "assign" and const_value(d.value) in (0, 0.0) and not isinstance(const_value(d.value), bool)]
-        nonzero_const = [d for d in defs if d.kind == "assign" and isinstance(d.value, ast.Constant) and d not in zero]
-        ck.check(bool(zero) and not nonzero_const, "CONST", "S6.flat-worth-zero", subj, fa.loc(st0), "a flat position is worth 0", f"flat positions are valued {[ast.unparse(d.value) for d in nonzero_const] or 'by no constant 0'}",
-                 construct="value = 0.0")
-        rets = returns_in(fa)
-        cont = ast.unparse(st0.targets[0].value)
-        ck.check(len(rets) == 1 and ast.unparse(rets[0].value) == cont, "ARGFLOW", "S6.values-returned", subj, fa.f.loc, "the mapping of values is returned", f"holdings_values returns {[ast.unparse(r.value) for r in rets]}",
-                 construct="return holdings_values")
-        it = fa.sym.canon(loop.iter)
-        ck.check(it == "self._holdings_quantity.items()" and not any(isinstance(x, (ast.Continue, ast.Break)) for x in ast.walk(loop)), "ARGFLOW", "S6.all-positions-valued", subj, fa.loc(loop), "every entry of the position ledger is valued",
-                 f"the valuation loop ranges over {it} or skips entries", construct=stmt_text(loop))
+        def on_stmt(s, fw):
+            if s is st0:
+                got["v"] = fw.ev(s.value)
+                got["fw"] = fw
+                got["specs"] = {}
+        fw = under(fa, facts, on_stmt=on_stmt)
+        return got.get("v"), fw
+
+    def spec_at_store(facts, text):
+        """the formula, evaluated at the store under the same assumptions (same names, same normaliser)"""
+        got = {}
+
+        def on_stmt(s, fw):
+            if s is st0:
+                got["v"] = fw.ev(ast.parse(text, mode="eval").body)
+        under(fa, facts, on_stmt=on_stmt)
+        return got.get("v")
+
+    formulas = {"notional": "{q} * ({price}) * {c}.multiplier", "liquidation": "{c}.cash_requirement * {q} * ({price}) * {c}.multiplier + self._holdings_margins[{c}]"}
+    for kind, form in formulas.items():
+        facts = [f"{qvar} != 0", f"{kindp} == '{kind}'"]
+        got, _ = stored_under(facts)
+        wants = [spec_at_store(facts, form.format(q=qvar, c=cvar, price=sp.format(book=book, q=qvar))) for sp in PRICE_SPELLINGS]
+        ok = got is not None and any(w is not None and got == w for w in wants)
+        what = {"notional": "notional value = position x liquidation-side price x multiplier", "liquidation": "liquidation value = cash requirement x position x liquidation-side price x multiplier + posted margin"}[kind]
+        ck.check(ok, "LIN", f"S6.value-{kind}", subj, fa.loc(st0), what + " (bid for a long, ask for a short, of the contract's own book)",
+                 f"{kind} value of a non-flat position = {got.key()[:300] if got is not None else 'not stored'}; expected {wants[0].key()[:300] if wants[0] is not None else '?'}", construct=f"kind == '{kind}'")
+    got0, _ = stored_under([f"{qvar} == 0"])
+    ck.check(got0 is not None and got0 == Poly.const(0), "CONST", "S6.flat-worth-zero", subj, fa.loc(st0), "a flat position is worth 0", f"a flat position is valued {got0.key()[:120] if got0 is not None else 'nothing'}",
+             construct="value = 0.0")
+    # an unsupported kind is an error, not a silent value
+    got_bad, fwb = stored_under([f"{qvar} != 0", f"{kindp} != 'notional'", f"{kindp} != 'liquidation'"])
+    ck.check(got_bad is None, "GUARD", "S6.unknown-kind-raises", subj, fa.loc(st0), "an unsupported kind raises", f"an unsupported kind is valued {got_bad.key()[:120] if got_bad is not None else ''}", construct="raise ValueError(\"Unsupported 'kind'.\")")
+    rets = [r for r in returns_in(fa) if r.value is not None]
+    cont = fa.sym.canon(st0.targets[0].value, fa.node_of(st0).id)
+    ck.check(len(rets) == 1 and fa.sym.canon(rets[0].value) == cont, "ARGFLOW", "S6.values-returned", subj, fa.f.loc, "the mapping of values is returned", f"holdings_values returns {[fa.sym.canon(r.value)[:80] for r in rets]}",
+             construct="return holdings_values")
+    ck.check(not any(isinstance(x, (ast.Continue, ast.Break)) for x in ast.walk(loop)), "ARGFLOW", "S6.all-positions-valued", subj, fa.loc(loop), "every entry of the position ledger is valued",
+             "the valuation loop skips entries", construct=stmt_text(loop))
     if "nlv" in want:
         fn = an.fa("Broker.net_liquidation_value")
         mt = fn.calls_to("Broker.marking_to_market")
@@ -465,29 +416,15 @@ def valuation_formulas(ck, an, want: set):
             ck.check(not m.args and not m.keywords, "ARGFLOW", "S5.marks-all-contracts", fn.f.short, fn.loc(m), "valuation marks every contract", f"valuation marks only {ast.unparse(m)}", construct=stmt_text(m))
         rets = [r for r in returns_in(fn) if r.value is not None]
         k = [fn.sym.canon(r.value) for r in rets]
-        ck.check(k == ["sum(self.holdings_values(kind='liquidation').values())"] or k == ["sum(self.holdings_values('liquidation').values())"], "LIN", "S6.nlv-is-sum-of-liquidation-values", fn.f.short, fn.f.loc,
+        specs = [spec(fn, t).key() for t in ("sum(self.holdings_values(kind='liquidation').values())", "sum(self.holdings_values('liquidation').values())")]
+        ck.check(len(k) == 1 and k[0] in specs, "LIN", "S6.nlv-is-sum-of-liquidation-values", fn.f.short, fn.f.loc,
                  "NLV = sum of liquidation values (cash + margins + fully-paid positions)", f"NLV = {k}", construct="return nlv")
     if "weights" in want:
         fwt = an.fa("Broker.holdings_weights")
-        rets = returns_in(fwt)
-        ok = False
-        detail = ""
-        for r in rets:
-            v = r.value
-            if isinstance(v, ast.DictComp):
-                it = fwt.sym.canon(v.generators[0].iter)
-                tv = v.generators[0].target
-                names = [e.id for e in tv.elts] if isinstance(tv, ast.Tuple) else []
-                fwt.sym.scope.append(set(names))
-                try:
-                    valp = fwt.sym.ev(v.value, fwt.node_of(r).id)
-                finally:
-                    fwt.sym.scope.pop()
-                detail = f"{{k: {valp.key()} for .. in {it}}}"
-                if len(names) == 2 and it in ("self.holdings_values().items()", "self.holdings_values(kind='notional').items()", "self.holdings_values('notional').items()") \
-                        and valp == Poly.atom(names[1]) * Poly.atom("self.net_liquidation_value()", -1) and ast.unparse(v.key) == names[0] and not v.generators[0].ifs:
-                    ok = True
-        ck.check(ok, "LIN", "S6.weight-is-notional-over-nlv", fwt.f.short, fwt.f.loc, "weight = notional value / NLV for every holding", f"holdings_weights returns {detail}",
+        rets = [r for r in returns_in(fwt) if r.value is not None]
+        k = [fwt.sym.canon(r.value) for r in rets]
+        specs = [spec(fwt, "{c: v / self.net_liquidation_value() for c, v in self.holdings_values(%s).items()}" % a).key() for a in ("", "kind='notional'", "'notional'")]
+        ck.check(len(k) == 1 and k[0] in specs, "LIN", "S6.weight-is-notional-over-nlv", fwt.f.short, fwt.f.loc, "weight = notional value / NLV for every holding", f"holdings_weights returns {k}",
                  construct="return {contract: value / nlv ...}")
 
 
